@@ -304,7 +304,11 @@ class World:
             raise
         except Exception as e:
             exc = e
-        out = Outcome(exc, list(wl[n0:]) if len(wl) >= n0 else [], list(att.events), n0, list(att.list_log))
+        # only what happened to the labware of this world (the library may try an operation on a private copy
+        # of a labware first; hook rules still judge such calls, the shadow models do not follow them)
+        mine = {id(x) for x in self.lw.values()}
+        events = [e for e in att.events if e.get("labware") is None or id(e["labware"]) in mine]
+        out = Outcome(exc, list(wl[n0:]) if len(wl) >= n0 else [], events, n0, list(att.list_log))
         return out
 
     def _dispatch(self, op):
